@@ -180,6 +180,12 @@ pub fn run(ctx: &RunCtx) -> Outcome {
             return o;
         }
     }
+    {
+        let fb = space(&gen::flag_cfg(), 3, false);
+        if !stage(ctx, &mut o, &p, "flag groups x fancy constructs x all single sites", &expand(&fb), &gen::texts(&gen::FLAG_SIGMA, 3)) {
+            return o;
+        }
+    }
     let n = if quick { 4 } else { 5 };
     let b4: Vec<Node> = space(&gen::core_cfg(), n, false).into_iter().filter(|x| x.size() > 3).collect();
     let t4 = {
